@@ -1,6 +1,6 @@
 (* C31  File selection and path matching follow the documented rules.
    Statements only; every proof is `exact <lemma>`. *)
-From CV Require Import Base.Bytes Base.Glob Path.Defs Path.MatchProofs Path.SpecProofs Path.ListProofs Path.IterProofs Path.CanonProofs Path.Termination Path.WinProofs.
+From CV Require Import Base.Bytes Base.Glob Path.Defs Path.MatchProofs Path.SpecProofs Path.ListProofs Path.IterProofs Path.CanonProofs Path.Termination Path.WinProofs Path.FastProofs.
 From Coq Require Import Permutation Sorted.
 Local Open Scope N_scope.
 
@@ -35,15 +35,16 @@ Print Assumptions C31_iterator_reads_canon.
    rules over the documented canonical forms, for every fuel.
    partial: (1) pattern and path - joined with the base path where the code does
    so - are rooted or do not begin with ".." (canon_ok; the documentation is
-   silent on relative paths that climb above their start); (2) the
-   `pattern == path` shortcut is covered for real patterns or an empty base
-   path (fast_ok). *)
+   silent on relative paths that climb above their start); (2) the pattern is
+   absolute/relative, or the base path is empty, or the pattern does not
+   canonicalise to the empty string (fast_ok2; a plain pattern such as "a/.."
+   has no documented meaning). *)
 Theorem C31_pathmatch_partial fuel pattern path base isdir b :
-  fast_ok pattern base = true ->
   canon_ok (pat_raw pattern base) = true -> canon_ok (path_raw path base) = true ->
+  fast_ok2 pattern base = true ->
   pathmatch_fuel fuel pattern path base isdir = Some b ->
   (b = true <-> pathmatch_spec pattern path base isdir).
-Proof. exact (pathmatch_fuel_spec_ok fuel pattern path base isdir b). Qed.
+Proof. exact (pathmatch_fuel_spec2 fuel pattern path base isdir b). Qed.
 Print Assumptions C31_pathmatch_partial.
 
 (* Termination: run with loop_fuel (an explicit bound computed from |pattern|,
@@ -61,12 +62,21 @@ Print Assumptions C31_pathmatch_model_total.
 
 (* ... and its answer is the documented rules *)
 Theorem C31_pathmatch_total pattern path base isdir :
-  fast_ok pattern base = true ->
   canon_ok (pat_raw pattern base) = true -> canon_ok (path_raw path base) = true ->
+  fast_ok2 pattern base = true ->
   exists b, pathmatch_model pattern path base isdir = Some b /\
             (b = true <-> pathmatch_spec pattern path base isdir).
-Proof. exact (pathmatch_total_ok pattern path base isdir). Qed.
+Proof. exact (pathmatch_total2 pattern path base isdir). Qed.
 Print Assumptions C31_pathmatch_total.
+
+(* the same with the premises as one executable test (used by the check to
+   decide which generated cases the theorem speaks about) *)
+Theorem C31_pathmatch_total_in_domain pattern path base isdir :
+  in_domain pattern path base = true ->
+  exists b, pathmatch_model pattern path base isdir = Some b /\
+            (b = true <-> pathmatch_spec pattern path base isdir).
+Proof. exact (pathmatch_total_dom pattern path base isdir). Qed.
+Print Assumptions C31_pathmatch_total_in_domain.
 
 (* Syntax::windows (second instance): the same loop on what the windows
    iterators read (backslash = separator, case folded, drive / UNC roots):
@@ -155,7 +165,9 @@ Proof. exact iter_fixed_witnesses. Qed.
 (* premises are inhabited *)
 Example C31_premises_ok :
   pathmatch_model [63;42;97]%N [98;97]%N []%N false = Some true /\                 (* "?*a" vs "ba" (fixed by 0d8f8cc) *)
-  fast_ok [115;114;99;47;42;46;99]%N [47;114]%N = false /\
+  fast_ok [115;114;99;47;42;46;99]%N [47;114]%N = false /\ fast_ok2 [115;114;99;47;42;46;99]%N [47;114]%N = true /\
+  fast_ok2 [97; SL; DOT; DOT] [114] = false /\ pathmatch_model [97; SL; DOT; DOT] [97; SL; DOT; DOT] [114] true = Some true /\
+  pathmatch_spec_b [97; SL; DOT; DOT] [97; SL; DOT; DOT] [114] true = false /\   (* the excluded shortcut case *)
   fast_ok [46;47;115;114;99]%N [47;114]%N = true /\                                (* "./src" *)
   canon_ok (pat_raw [46;47;115;114;99]%N [47;114]%N) = true /\ canon_ok (path_raw [115;114;99;47;97;46;99]%N [47;114]%N) = true /\
   canon_ok [46;46;47;97]%N = false /\ iter_read [46;46;47;97]%N [] = [46;46;47;97]%N /\   (* "../a" is kept; outside canon_ok *)
